@@ -34,8 +34,8 @@ var searchRoots = []string{
 	"6k1/5ppp/8/8/8/8/8/R3K3 w Q - 0 1",
 	"6rk/6pp/8/6N1/8/8/8/4K3 w - - 0 1",
 	"8/5P1k/7p/8/8/8/8/6K1 w - - 0 1",
-	"5k2/5P2/5K2/8/8/8/8/8 w - - 0 1",  // stalemate traps
-	"7k/5Q2/6K1/8/8/8/8/8 b - - 0 1",   // stalemate
+	"5k2/5P2/5K2/8/8/8/8/8 w - - 0 1",   // stalemate traps
+	"7k/5Q2/6K1/8/8/8/8/8 b - - 0 1",    // stalemate
 	"R5k1/5ppp/8/8/8/8/8/4K3 b - - 0 1", // checkmated
 	"r3k2r/p1ppqpb1/bn2pnp1/3PN3/1p2P3/2N2Q1p/PPPBBPPP/R3K2R w KQkq - 0 1",
 	"rnbqkbnr/pppppppp/8/8/8/8/PPPPPPPP/RNBQKBNR w KQkq - 0 1",
